@@ -171,70 +171,72 @@ theorem inv_run {st : State} (hI : Inv st) (ops : List Op) : Inv (run st ops) :=
   | nil => exact hI
   | cons op rest ih => exact ih (inv_step hI op)
 
-/-! ### the converse direction, for histories with one live session per MAC -/
+/-! ### the converse direction, per MAC: for every MAC that never had two live sessions at once -/
 
-/-- every `create m` of the history happens while no live session has MAC `m` -/
-def OnePerMac : State → List Op → Prop
+/-- every `create m` of the history — for THIS MAC `m`; creates for other MACs are unconstrained — happens while no
+    live session has MAC `m` -/
+def OnePerMacFor (m : Nat) : State → List Op → Prop
   | _, [] => True
   | st, op :: rest =>
     (match op with
-     | .create m => ∀ id, AMap.lookup st.sessions id ≠ some m
-     | _ => True) ∧ OnePerMac (step st op).1 rest
+     | .create m' => m' = m → ∀ id, AMap.lookup st.sessions id ≠ some m
+     | _ => True) ∧ OnePerMacFor m (step st op).1 rest
 
-/-- a decidable sufficient condition for the `create` clause of `OnePerMac` -/
+/-- a decidable sufficient condition for the `create` clause of `OnePerMacFor` -/
 theorem noLive_of_all {st : State} {m : Nat} (h : (st.sessions.all fun e => e.2 != m) = true) :
     ∀ id, AMap.lookup st.sessions id ≠ some m := by
   intro id hl
   have := List.all_eq_true.mp h _ (mem_of_lookup hl)
   simp at this
 
-/-- every live session is reachable through the MAC index -/
-def Complete (st : State) : Prop :=
-  ∀ id m, AMap.lookup st.sessions id = some m → AMap.lookup st.mac2s m = some id
+/-- every live session of MAC `m` is reachable through the MAC index -/
+def CompleteFor (m : Nat) (st : State) : Prop :=
+  ∀ id, AMap.lookup st.sessions id = some m → AMap.lookup st.mac2s m = some id
 
-theorem complete_drop {st : State} (hC : Complete st) (id : Nat) : Complete (drop st id) := by
-  intro id' m hm
+theorem completeFor_drop {m : Nat} {st : State} (hC : CompleteFor m st) (id : Nat) : CompleteFor m (drop st id) := by
+  intro id' hm
   rw [drop_sessions] at hm
   rw [drop_mac2s]
   by_cases e : id' = id
   · simp [e] at hm
   · simp only [e, if_false] at hm
-    have hq := hC id' m hm
+    have hq := hC id' hm
     have : ¬ (AMap.lookup st.sessions id = some m ∧ AMap.lookup st.mac2s m = some id) := by
       intro ⟨_, h2⟩; rw [hq] at h2; simp at h2; exact e h2
     rw [if_neg this]; exact hq
 
-theorem complete_dropFold {st : State} (hC : Complete st) (l : List Nat) : Complete (l.foldl drop st) := by
+theorem completeFor_dropFold {m : Nat} {st : State} (hC : CompleteFor m st) (l : List Nat) :
+    CompleteFor m (l.foldl drop st) := by
   induction l generalizing st with
   | nil => exact hC
-  | cons id rest ih => exact ih (complete_drop hC id)
+  | cons id rest ih => exact ih (completeFor_drop hC id)
 
-theorem complete_create {st : State} (hC : Complete st) (mac : Nat)
-    (hfresh : ∀ id, AMap.lookup st.sessions id ≠ some mac) : Complete (create st mac).1 := by
+theorem completeFor_create {m : Nat} {st : State} (hC : CompleteFor m st) (mac : Nat)
+    (hfresh : mac = m → ∀ id, AMap.lookup st.sessions id ≠ some m) : CompleteFor m (create st mac).1 := by
   by_cases h : ∃ id, (create st mac).2 = .okId id
   · obtain ⟨id, h⟩ := h
     obtain ⟨_, he⟩ := create_ok h
     rw [he]
-    intro id' m hm
+    intro id' hm
     simp only [lookup_insert] at hm ⊢
     by_cases e : id' = id
     · simp only [e, if_true, Option.some.injEq] at hm; subst hm; simp [e]
     · simp only [e, if_false] at hm
-      have : m ≠ mac := by intro x; subst x; exact hfresh id' hm
-      simp only [this, if_false]; exact hC id' m hm
+      have : m ≠ mac := by intro x; exact hfresh x.symm id' hm
+      simp only [this, if_false]; exact hC id' hm
   · have : (create st mac).1 = st := create_not_ok (fun id hh => h ⟨id, hh⟩)
     rw [this]; exact hC
 
-theorem complete_run {st : State} (hC : Complete st) (ops : List Op) (h1 : OnePerMac st ops) :
-    Complete (run st ops) := by
+theorem completeFor_run {m : Nat} {st : State} (hC : CompleteFor m st) (ops : List Op)
+    (h1 : OnePerMacFor m st ops) : CompleteFor m (run st ops) := by
   induction ops generalizing st with
   | nil => exact hC
   | cons op rest ih =>
     obtain ⟨ha, hb⟩ := h1
     apply ih _ hb
     cases op with
-    | create m => exact complete_create hC m ha
-    | remove id => exact complete_drop hC id
+    | create m' => exact completeFor_create hC m' ha
+    | remove id => exact completeFor_drop hC id
     | get id => exact hC
     | byMac m => exact hC
     | markIdle id =>
@@ -242,7 +244,7 @@ theorem complete_run {st : State} (hC : Complete st) (ops : List Op) (h1 : OnePe
       split
       · exact hC
       · exact hC
-    | cleanup => exact complete_dropFold hC _
+    | cleanup => exact completeFor_dropFold hC _
     | count => exact hC
     | next => exact hC
     | setNext n => exact hC
